@@ -108,8 +108,19 @@ func recsEqual(a, b []rec) bool {
 	return true
 }
 
+type rewriteCase struct {
+	text []byte
+	recs []rec
+}
+
+type rwReject struct {
+	file       int
+	text, orig []byte
+}
+
 type pendingFail struct {
 	file    int
+	rw      int // 1-based index into textState.rewrites whose git confirmation this fail needs (0 = none)
 	confKey string
 	key     string
 	what    string
@@ -129,6 +140,8 @@ type textState struct {
 	pending  []pendingFail
 	confs    map[string]typedConf
 	rejected [][]byte
+	rewrites []rewriteCase
+	rwRejected []rwReject
 }
 
 func partText(c *vf.Ctx, g *gitx.Git) {
@@ -153,6 +166,12 @@ func partText(c *vf.Ctx, g *gitx.Git) {
 		}
 		recs := toRecs(rr)
 		files[i] = &caseFile{f: f, text: text, recs: recs}
+		if hasRisky(f) {
+			// "risky" pieces exist to exercise the accept filter and the model's reject path;
+			// when git accepts such a text anyway it is listed by git (model check) but not minimisable.
+			c.Count("risky_texts_accepted", 1)
+			return
+		}
 		for ui := range f.Units {
 			feats := f.isolate(ui).features()
 			c.Eval(strings.Join(feats, "+"), len(feats) > 0)
@@ -178,7 +197,28 @@ func partText(c *vf.Ctx, g *gitx.Git) {
 		gg := flatten(raw)
 		anyDiff := false
 		names := map[string]bool{}
-		for _, u := range f.Units {
+		for ui, u := range f.Units {
+			if u.Typed != "" {
+				// typed keys may share their name across subsections: compare the exact triple
+				id := f.Idents[u.Ident]
+				t := triple{strings.ToLower(id.Sec), id.Sub, u.Name}
+				only := func(rs []rec) []rec {
+					var o []rec
+					for _, r := range rs {
+						if r.T == t {
+							o = append(o, r)
+						}
+					}
+					return o
+				}
+				if k, det := diffKind(only(recs), only(gg), ""); k != "" {
+					anyDiff = true
+					st.mu.Lock()
+					st.divs = append(st.divs, divergence{file: i, unit: ui, kind: k, detail: det})
+					st.mu.Unlock()
+				}
+				continue
+			}
 			if names[u.Name] {
 				continue
 			}
@@ -256,8 +296,32 @@ func partText(c *vf.Ctx, g *gitx.Git) {
 		confOK[ckeys[i]] = good
 		cmu.Unlock()
 	})
+	// rewritten texts (read by go-git, written again by Config.Marshal): git lists each of them
+	texts, want = nil, nil
+	for _, rw := range st.rewrites {
+		texts = append(texts, rw.text)
+		want = append(want, rw.recs)
+	}
+	rwOK := confirmBatch(c, g, dir, texts, want, "text rewritten by Config.Marshal")
+	for _, ok := range rwOK {
+		if ok {
+			c.Count("rewrites_confirmed_by_git", 1)
+		}
+	}
+	for _, rj := range st.rwRejected {
+		_, ok, res := gitList(g, dir, rj.text)
+		c.Count("git_reject_confirmations", 1)
+		if res.Timeout {
+			c.Inconclusive("git config timed out")
+		} else if ok {
+			c.Broken("MODEL-MISMATCH: model rejects %q, git accepts it", rj.text)
+		} else if files[rj.file].confirmed {
+			dbgFail(c, "rewrite:git-rejects", fmt.Sprintf("go-git read %q and wrote %q, which git rejects: %s", rj.orig, rj.text, res.Err), map[string]any{"text": string(rj.orig), "rewritten": string(rj.text)})
+		}
+	}
 	for _, p := range st.pending {
-		if !files[p.file].confirmed || (p.confKey != "" && !confOK[p.confKey]) {
+		if !files[p.file].confirmed || (p.confKey != "" && !confOK[p.confKey]) || (p.rw > 0 && !rwOK[p.rw-1]) {
+			c.Count("pending_fails_dropped_unconfirmed", 1)
 			continue
 		}
 		dbgFail(c, p.key, p.what, p.replay)
@@ -444,7 +508,9 @@ func minimise(f *cfgFile, ui int, kind string) (key, why string, minText []byte,
 			cur, det, text, recs = n, d, t, rc
 		}
 	}
-	for pass := 0; pass < 2; pass++ {
+	prev := ""
+	for pass := 0; pass < 5 && string(text) != prev; pass++ {
+		prev = string(text)
 		for li := len(cur.Units[0].Lines) - 1; li >= 0; li-- {
 			li := li
 			try(func(n *cfgFile) bool {
@@ -548,7 +614,7 @@ func minimise(f *cfgFile, ui int, kind string) (key, why string, minText []byte,
 			if li >= len(cur.Units[0].Lines) {
 				continue
 			}
-			if cur.Units[0].Typed == "" {
+			if cur.Units[0].Typed == "" || !unm {
 				try(func(n *cfgFile) bool { // empty value -> plain word
 					l := &n.Units[0].Lines[li]
 					if l.Sep.Kind == "valueless" || len(l.Val) > 0 {
@@ -639,6 +705,22 @@ func minimise(f *cfgFile, ui int, kind string) (key, why string, minText []byte,
 }
 
 var _ = reflect.DeepEqual
+
+func hasRisky(f *cfgFile) bool {
+	for _, u := range f.Units {
+		for _, l := range u.Lines {
+			if strings.HasPrefix(l.Cmt.Kind, "risky") {
+				return true
+			}
+			for _, p := range l.Val {
+				if p.Kind == "risky" {
+					return true
+				}
+			}
+		}
+	}
+	return false
+}
 
 var dbgSeen sync.Map
 
